@@ -2157,4 +2157,517 @@ theorem abandon_returns' (c : Cfg) (s : State) (hc : s.main = .consuming) :
   · intro w k hw hk
     simp [parked, step, hw, hk]
 
+/-! ## Phase 4: larger independence table, worker faults (exit code ≠ 0), max-tasks as an invariant of its own -/
+
+
+theorem comm_wPut_cGet (c : Cfg) (s : State) (w : Nat) (ha : enabled c s (.wPut w) = true) (hb : enabled c s .cGet = true) :
+    Commutes c s (.wPut w) .cGet := by
+  obtain ⟨k, o, pend, e, hw⟩ := en_wPut ha
+  simp only [enabled, Bool.and_eq_true] at hb
+  cases ho : s.outq with
+  | nil => simp [ho] at hb
+  | cons y ys => cases y <;> simp [Commutes, enabled, step, hw, ho, hb]
+
+theorem comm_loadPut_wGet (c : Cfg) (s : State) (w : Nat) (ha : enabled c s .loadPut = true) (hb : enabled c s (.wGet w) = true) :
+    Commutes c s .loadPut (.wGet w) := by
+  obtain ⟨k, x, rest, hw, hk, hq⟩ := en_wGet hb
+  simp only [enabled, Bool.and_eq_true] at ha
+  cases hi : s.infl with
+  | none => simp [hi] at ha
+  | some y =>
+    have hl : rest.length < cap c := by have := ha.2; simp [hq] at this; omega
+    cases x <;> simp [Commutes, enabled, step, hi, hw, hq, hk, hl]
+
+theorem step_comm2' (c : Cfg) (s : State) (a b : Action) (hi : indep2 a b = true)
+    (ha : enabled c s a = true) (hb : enabled c s b = true) : Commutes c s a b := by
+  simp only [indep2, Bool.or_eq_true] at hi
+  rcases hi with (h | h) | h
+  · exact step_comm' c s a b h ha hb
+  · cases a <;> cases b <;> simp [indepExtra1] at h
+    · exact comm_loadPut_wGet c s _ ha hb
+    · exact comm_wPut_cGet c s _ ha hb
+  · cases a <;> cases b <;> simp [indepExtra1] at h
+    · exact (comm_loadPut_wGet c s _ hb ha).symm
+    · exact (comm_wPut_cGet c s _ hb ha).symm
+
+theorem swap_adjacent2' (c : Cfg) (s : State) (a b : Action) (rest : List Action) (hi : indep2 a b = true)
+    (ha : enabled c s a = true) (hb : enabled c s b = true) :
+    runTrace c s (a :: b :: rest) = runTrace c s (b :: a :: rest) := by
+  obtain ⟨h1, h2, h3⟩ := step_comm2' c s a b hi ha hb
+  simp [runTrace, ha, hb, h1, h2, h3]
+
+/-! faults -/
+theorem no_faults_refines' (c : Cfg) (s : FState) (hr : ReachableF c 0 s) :
+    Reachable c s.b ∧ s.mainErr = false ∧ s.crashed = [] ∧ s.skipped = false ∧ s.budget = 0 := by
+  induction hr with
+  | init => exact ⟨Reachable.init, rfl, rfl, rfl, rfl⟩
+  | @step s' a _ he ih =>
+    obtain ⟨h1, h2, h3, h4, h5⟩ := ih
+    cases a with
+    | wCrash w => simp [enabledF, h5] at he
+    | base a =>
+      have hen : enabled c s'.b a = true := by
+        cases a <;> simp only [enabledF, Bool.and_eq_true] at he <;> first | exact he | exact he.1
+      have hst : stepF c s' (.base a) = { s' with b := step c s'.b a } := by
+        cases a <;> simp [stepF, h2, h3]
+      rw [hst]
+      exact ⟨Reachable.step h1 hen, h2, h3, h4, h5⟩
+
+theorem muF_decreases' (c : Cfg) (s : FState) (a : ActionF) (h : enabledF c s a = true) :
+    muF c (stepF c s a) < muF c s := by
+  cases a with
+  | base a =>
+    have hen : enabled c s.b a = true := by
+      cases a <;> simp only [enabledF, Bool.and_eq_true] at h <;> first | exact h | exact h.1
+    have hb := mu_decreases' c s.b a hen
+    have key : mu c (stepF c s (.base a)).b ≤ mu c (step c s.b a) ∧ (stepF c s (.base a)).budget = s.budget := by
+      cases a with
+      | wCallback w =>
+        simp only [stepF]
+        split
+        · exact ⟨by simp [mu_def], rfl⟩
+        · exact ⟨Nat.le_refl _, rfl⟩
+      | mEvent =>
+        simp only [stepF]
+        split
+        · refine ⟨?_, rfl⟩
+          simp only [enabled, Bool.and_eq_true] at hen
+          have hm : s.b.main = .waitEvent := by simpa using hen.1
+          simp [mu_def, step, phasePot]
+        · exact ⟨Nat.le_refl _, rfl⟩
+      | _ => exact ⟨Nat.le_refl _, rfl⟩
+    simp only [muF]; omega
+  | wCrash w =>
+    simp only [enabledF, Bool.and_eq_true, decide_eq_true_eq] at h
+    obtain ⟨hbud, hw⟩ := h
+    cases hws : s.b.ws[w]? with
+    | none => simp [hws] at hw
+    | some x =>
+      cases x with
+      | dead => simp [hws] at hw
+      | exited p e => simp [hws] at hw
+      | spawned =>
+        have := sumOver_set (wPot c) s.b.ws w .spawned (.exited true none) hws
+        simp only [wPot] at this
+        simp only [stepF, hws, muF, mu_def]; omega
+      | run k pend e =>
+        have := sumOver_set (wPot c) s.b.ws w (.run k pend e) (.exited true none) hws
+        simp only [wPot] at this
+        simp only [stepF, hws, muF, mu_def]; omega
+
+def MaxK (c : Cfg) (s : State) : Prop := ∀ (w k : Nat) (p : List Nat) (e : Option Nat), s.ws[w]? = some (W.run k p e) → 0 < c.m → k ≤ c.m
+
+theorem maxk_set (c : Cfg) (s : State) (w : Nat) (x : W) (h : MaxK c s)
+    (hx : ∀ k p e, x = .run k p e → 0 < c.m → k ≤ c.m) (ws' : List W) (hws : ws' = s.ws.set w x)
+    (s' : State) (hs : s'.ws = ws') : MaxK c s' := by
+  intro w' k p e hw hm
+  rw [hs, hws, List.getElem?_set] at hw
+  split at hw
+  · split at hw
+    · exact hx k p e (by simpa using hw) hm
+    · simp at hw
+  · exact h w' k p e hw hm
+
+theorem maxk_step (c : Cfg) (s : State) (a : Action) (h : MaxK c s) (he : enabled c s a = true) : MaxK c (step c s a) := by
+  have same : ∀ s' : State, s'.ws = s.ws → MaxK c s' := fun s' hs w k p e hw hm => h w k p e (hs ▸ hw) hm
+  cases a with
+  | wBegin w => exact maxk_set c s w (.run 0 [] none) h (by intro k p e hx hm; cases hx; omega) _ rfl _ (by simp [step])
+  | wGet w =>
+    obtain ⟨k, x, rest, hw, hk, hq⟩ := en_wGet he
+    cases x with
+    | none => exact maxk_set c s w (.exited true none) h (by intro k p e hx; cases hx) _ rfl _ (by simp [step, hw, hq])
+    | some x =>
+      refine maxk_set c s w (.run (k + 1) x.outs x.err) h ?_ _ rfl _ (by simp [step, hw, hq])
+      intro k' p e hx hm; cases hx
+      simp [mayTake] at hk; omega
+  | wPut w =>
+    obtain ⟨k, o, pend, e, hw⟩ := en_wPut he
+    refine maxk_set c s w (.run k pend e) h ?_ _ rfl _ (by simp [step, hw])
+    intro k' p e' hx hm; cases hx; exact h w _ _ _ hw hm
+  | wRaise w =>
+    obtain ⟨k, e, hw⟩ := en_wRaise he
+    exact maxk_set c s w (.exited false (some e)) h (by intro k p e hx; cases hx) _ rfl _ (by simp [step, hw])
+  | wRetire w => exact maxk_set c s w (.exited false none) h (by intro k p e hx; cases hx) _ rfl _ (by simp [step])
+  | wCallback w =>
+    obtain ⟨p, e, hw⟩ := en_wCallback he
+    simp only [step, hw]
+    split
+    · exact maxk_set c s w .spawned h (by intro k p e hx; cases hx) _ rfl _ rfl
+    · exact maxk_set c s w .dead h (by intro k p e hx; cases hx) _ rfl _ rfl
+  | loadTake => apply same; simp only [step]; split <;> (try split) <;> rfl
+  | loadPut => apply same; simp only [step]; split <;> rfl
+  | loadFinish => apply same; rfl
+  | mEvent => apply same; rfl
+  | cGet => apply same; simp only [step]; split <;> rfl
+  | cAbandon => apply same; rfl
+  | drainIn => apply same; simp only [step]; split <;> rfl
+  | drainOut => apply same; simp only [step]; split <;> rfl
+  | mDone => apply same; rfl
+
+theorem maxk_init (c : Cfg) : MaxK c (init c) := by
+  intro w k p e hw
+  simp only [init] at hw
+  rw [List.getElem?_replicate] at hw
+  split at hw <;> simp at hw
+
+theorem maxk_stepF (c : Cfg) (s : FState) (a : ActionF) (h : MaxK c s.b) (he : enabledF c s a = true) : MaxK c (stepF c s a).b := by
+  cases a with
+  | base a =>
+    have hen : enabled c s.b a = true := by
+      cases a <;> simp only [enabledF, Bool.and_eq_true] at he <;> first | exact he | exact he.1
+    have hb := maxk_step c s.b a h hen
+    have same : ∀ s' : State, s'.ws = (step c s.b a).ws → MaxK c s' := fun s' hs w k p e hw hm => hb w k p e (hs ▸ hw) hm
+    cases a with
+    | wCallback w => simp only [stepF]; split <;> apply same <;> rfl
+    | mEvent => simp only [stepF]; split <;> apply same <;> rfl
+    | _ => exact hb
+  | wCrash w =>
+    simp only [stepF]
+    split
+    · exact maxk_set c s.b w (.exited true none) h (by intro k p e hx; cases hx) _ rfl _ rfl
+    · exact maxk_set c s.b w (.exited true none) h (by intro k p e hx; cases hx) _ rfl _ rfl
+    · exact h
+
+theorem maxk_reachableF (c : Cfg) (f : Nat) (s : FState) (hr : ReachableF c f s) : MaxK c s.b := by
+  induction hr with
+  | init => exact maxk_init c
+  | step _ he ih => exact maxk_stepF c _ _ ih he
+
+theorem max_tasks_faults' (c : Cfg) (hm : 0 < c.m) (f : Nat) (s : FState) (hr : ReachableF c f s)
+    (w k : Nat) (p : List Nat) (e : Option Nat) (h : s.b.ws[w]? = some (.run k p e)) : k ≤ c.m :=
+  maxk_reachableF c f s hr w k p e h hm
+
+theorem runF_bounded' (c : Cfg) (s s' : FState) (tr : List ActionF) (h : runTraceF c s tr = some s') :
+    tr.length + muF c s' ≤ muF c s := by
+  induction tr generalizing s with
+  | nil => simp [runTraceF] at h; subst h; simp
+  | cons a as ih =>
+    simp only [runTraceF] at h
+    split at h
+    · rename_i he
+      have := ih _ h
+      have := muF_decreases' c s a he
+      simp; omega
+    · simp at h
+
+/-! closed witnesses for the fault extension -/
+
+def crashCfg : Cfg := { n := 2, m := 0, items := [{ id := 0, outs := [1], err := none }, { id := 1, outs := [2], err := none }] }
+def crashTrace : List ActionF :=
+  [.base .loadTake, .base .loadPut, .base .loadTake, .base .loadPut, .base .loadFinish, .base .loadTake, .base .loadPut, .base .loadTake, .base .loadPut,
+   .base (.wBegin 0), .base .mEvent, .base (.wBegin 1), .base (.wGet 0), .wCrash 0, .base (.wCallback 0),
+   .base (.wGet 1), .base (.wPut 1), .base (.wGet 1), .base (.wCallback 1), .base .cGet, .base .cGet, .base .drainIn, .base .mDone]
+
+theorem crash_loses_item' :
+    (runTraceF crashCfg (initF crashCfg 1) crashTrace).map (fun s => (s.b.main, outcome s.b, s.lostOuts, s.mainErr))
+      = some (Phase.done, Outcome.ok [2], [1], true) ∧ allOuts crashCfg = [1, 2] ∧ allErrs crashCfg = [] := by decide
+
+def skipCfg : Cfg := { n := 2, m := 1, items := [{ id := 0, outs := [1], err := none }] }
+def skipTrace : List ActionF :=
+  [.base (.wBegin 0), .base .loadTake, .base .loadPut, .base (.wGet 0), .wCrash 0, .base (.wCallback 0), .base .mEvent, .base .mDone]
+
+theorem crash_before_event_skips' :
+    (runTraceF skipCfg (initF skipCfg 1) skipTrace).map (fun s => (s.b.main, outcome s.b, s.skipped, s.lostOuts, enabledF skipCfg s (.base (.wBegin 1))))
+      = some (Phase.done, Outcome.ok [], true, [1], false) := by decide
+
+theorem indep2_example' :
+    indep2 (.wPut 0) .cGet = true ∧ indep (.wPut 0) .cGet = false ∧ indep2 .loadPut (.wGet 1) = true ∧ indep2 (.wGet 0) (.wGet 1) = false
+      ∧ indep2 (.wPut 0) (.wPut 1) = false := by decide
+
+theorem exactly_once_faults_partial' (c : Cfg) (hn : 0 < c.n) (s : FState) (hr : ReachableF c 0 s) (hd : s.b.main = .done)
+    (hab : s.b.abandoned = false) (hne : ∀ x ∈ c.items, x.err = none ∧ x.perr = none) :
+    ∃ outs, outcome s.b = .ok outs ∧ outs.Perm (allOuts c) :=
+  exactly_once' c hn s.b (no_faults_refines' c s hr).1 hd hab hne
+
+theorem error_surfaces_faults_partial' (c : Cfg) (hn : 0 < c.n) (s : FState) (hr : ReachableF c 0 s) (hd : s.b.main = .done)
+    (hab : s.b.abandoned = false) (x : ItemSpec) (hx : x ∈ c.items) (hxe : x.err ≠ none ∨ x.perr ≠ none) :
+    ∃ e outs, outcome s.b = .raised e outs ∧ e ∈ allErrs c :=
+  error_surfaces' c hn s.b (no_faults_refines' c s hr).1 hd hab x hx hxe
+
+theorem terminates_faults' (c : Cfg) (f : Nat) (tr : List ActionF) (s : FState) (h : runTraceF c (initF c f) tr = some s) :
+    tr.length ≤ mu c (init c) + 3 * f := by
+  have := runF_bounded' c (initF c f) s tr h
+  simp only [muF, initF] at this; omega
+
+theorem fin_can_finish_faults' (c : Cfg) (s : FState) (h : s.b.main = .fin) : enabledF c s (.base .mDone) = true := by
+  simp [enabledF, enabled, h]
+
+/-! ## Phase 4: `read_wait=True` -/
+
+
+theorem enR_base {c : Cfg} {s : RState} {a : Action} (h : enabledR c s (.base a) = true) : enabled c s.b a = true := by
+  cases a <;> simp only [enabledR, Bool.and_eq_true] at h <;> first | exact h | exact h.1 | exact h.1.1
+
+theorem readwait_refines' (c : Cfg) (rw : Bool) (s : RState) (hr : ReachableR c rw s) : Reachable c s.b := by
+  induction hr with
+  | init => exact Reachable.init
+  | @step s' a _ he ih =>
+    cases a with
+    | base a => exact Reachable.step ih (enR_base he)
+    | wKey w => exact ih
+    | cKey => simp only [stepR]; split <;> exact ih
+    | drainKey => exact ih
+
+theorem no_readwait_no_keys' (c : Cfg) (s : RState) (hr : ReachableR c false s) : s.keyPending = [] ∧ s.keyWait = [] := by
+  induction hr with
+  | init => exact ⟨rfl, rfl⟩
+  | @step s' a _ he ih =>
+    cases a with
+    | base a => exact ih
+    | wKey w => simp [enabledR, ih.1] at he
+    | cKey => simp only [stepR]; split <;> simp [ih.1, ih.2]
+    | drainKey => exact ih
+
+theorem outq_step_len (c : Cfg) (s : State) (a : Action) : (step c s a).outq.length ≤ s.outq.length + 1 := by
+  cases a <;> simp only [step] <;> (repeat' split) <;> simp_all <;> omega
+
+theorem syncOut_len (old new : List (Option Nat)) (r : List ROut) (h : new.length ≤ old.length + 1) :
+    (syncOut old new r).length ≤ r.length + 1 := by
+  simp only [syncOut]
+  split
+  · simp; omega
+  · simp; omega
+
+theorem muR_decreases' (c : Cfg) (rw : Bool) (s : RState) (a : ActionR) (h : enabledR c s a = true) :
+    muR c (stepR c rw s a) < muR c s := by
+  cases a with
+  | base a =>
+    have hb := mu_decreases' c s.b a (enR_base h)
+    have hl := syncOut_len s.b.outq (step c s.b a).outq s.routq (outq_step_len c s.b a)
+    have hnot : lineEnds s.b a ≠ none → (step c s.b a).outq = s.b.outq := by
+      cases a <;> simp [lineEnds, step]
+      · rename_i w
+        intro _
+        split <;> rfl
+      · rename_i w; split <;> rfl
+    simp only [muR, stepR]
+    cases hle : lineEnds s.b a with
+    | none => cases rw <;> simp <;> omega
+    | some w =>
+      have := hnot (by simp [hle])
+      have hs : (syncOut s.b.outq (step c s.b a).outq s.routq).length = s.routq.length := by
+        rw [this]; simp [syncOut]
+      cases rw <;> simp <;> omega
+  | wKey w =>
+    simp only [enabledR] at h
+    have hm : w ∈ s.keyPending := by simpa using h
+    have := List.length_erase_of_mem hm
+    have hp : 0 < s.keyPending.length := List.length_pos_of_mem hm
+    simp only [muR, stepR]; simp; omega
+  | cKey =>
+    simp only [enabledR, Bool.and_eq_true] at h
+    cases hq : s.routq with
+    | nil => simp [hq, isKeyHead] at h
+    | cons x rest =>
+      cases x with
+      | val o => simp [hq, isKeyHead] at h
+      | pill => simp [hq, isKeyHead] at h
+      | key w =>
+        have := List.length_filter_le (fun x => x != w) s.keyWait
+        simp only [muR, stepR, hq]; simp; omega
+  | drainKey =>
+    simp only [enabledR, Bool.and_eq_true] at h
+    cases hq : s.routq with
+    | nil => simp [hq, isKeyHead] at h
+    | cons x rest => simp only [muR, stepR, hq]; simp
+
+theorem runR_bounded' (c : Cfg) (rw : Bool) (s s' : RState) (tr : List ActionR) (h : runTraceR c rw s tr = some s') :
+    tr.length + muR c s' ≤ muR c s := by
+  induction tr generalizing s with
+  | nil => simp [runTraceR] at h; subst h; simp
+  | cons a as ih =>
+    simp only [runTraceR] at h
+    split at h
+    · rename_i he
+      have := ih _ h
+      have := muR_decreases' c rw s a he
+      simp; omega
+    · simp at h
+
+theorem terminates_readwait' (c : Cfg) (rw : Bool) (tr : List ActionR) (s : RState) (h : runTraceR c rw (initR c) tr = some s) :
+    tr.length ≤ 6 * mu c (init c) := by
+  have := runR_bounded' c rw (initR c) s tr h
+  simp only [muR, initR] at this; simp at this; omega
+
+def rwCfg : Cfg := { n := 1, m := 1, items := [{ id := 0, outs := [1], err := none }] }
+def rwTrace1 : List ActionR :=
+  [.base (.wBegin 0), .base .mEvent, .base .loadTake, .base .loadPut, .base (.wGet 0), .base (.wPut 0), .base (.wRetire 0), .wKey 0]
+def rwTrace2 : List ActionR :=
+  [.base .cGet, .cKey, .base (.wCallback 0), .base .loadFinish, .base .loadTake, .base .loadPut, .base (.wBegin 0), .base (.wGet 0), .wKey 0, .cKey,
+   .base (.wCallback 0), .base .cGet, .base .mDone]
+
+theorem readwait_example' :
+    (runTraceR rwCfg true (initR rwCfg) rwTrace1).map (fun s => (s.routq, s.keyWait, enabledR rwCfg s (.base (.wCallback 0)), enabled rwCfg s.b (.wCallback 0)))
+      = some ([ROut.val 1, ROut.key 0], [0], false, true)
+    ∧ (runTraceR rwCfg true (initR rwCfg) (rwTrace1 ++ rwTrace2)).map (fun s => (s.b.main, outcome s.b, s.routq, s.keyPending, s.keyWait))
+      = some (Phase.done, Outcome.ok [1], [], [], []) := by decide
+
+/-! ### `read_wait`: the invariant of the key layer and deadlock-freedom -/
+
+
+def RInv (s : RState) : Prop :=
+  s.b.outq = s.routq.filterMap ROut.proj ∧ (s.b.active = true → ∀ w ∈ s.keyWait, ROut.key w ∈ s.routq)
+
+theorem outq_step_shape (c : Cfg) (s : State) (a : Action) :
+    (step c s a).outq = s.outq ∨ (∃ x, (step c s a).outq = s.outq ++ [x]) ∨
+      ((a = .cGet ∨ a = .drainOut) ∧ ∃ y, s.outq = y :: (step c s a).outq) := by
+  cases a <;> simp only [step] <;> (repeat' split) <;> simp_all
+
+theorem active_step (c : Cfg) (s : State) (a : Action) (he : enabled c s a = true) (h : (step c s a).active = true) : s.active = true := by
+  cases a <;> simp only [step] at h <;> (repeat' split at h) <;> simp_all [State.active, enabled]
+
+theorem proj_lift (x : Option Nat) : ROut.proj (ROut.lift x) = some x := by cases x <;> rfl
+
+theorem rinv_init (c : Cfg) : RInv (initR c) := by
+  refine ⟨by simp [initR, init], ?_⟩
+  intro _ w hw; simp [initR] at hw
+
+theorem rinv_step (c : Cfg) (rw : Bool) (s : RState) (a : ActionR) (hI : RInv s) (he : enabledR c s a = true) : RInv (stepR c rw s a) := by
+  obtain ⟨h1, h2⟩ := hI
+  cases a with
+  | base a =>
+    have hen := enR_base he
+    have hhead : (a = .cGet ∨ a = .drainOut) → isKeyHead s.routq = false := by
+      rintro (rfl | rfl) <;> simp only [enabledR, Bool.and_eq_true] at he <;> simpa using he.2
+    simp only [stepR, RInv]
+    rcases outq_step_shape c s.b a with hs | ⟨x, hs⟩ | ⟨hcd, y, hs⟩
+    · have e1 : syncOut s.b.outq (step c s.b a).outq s.routq = s.routq := by rw [hs]; simp [syncOut]
+      rw [e1, hs]
+      exact ⟨h1, fun hact => h2 (active_step c s.b a hen hact)⟩
+    · have e1 : syncOut s.b.outq (step c s.b a).outq s.routq = s.routq ++ [ROut.lift x] := by
+        rw [hs]; unfold syncOut; rw [if_neg (by simp)]; simp
+      rw [e1, hs]
+      refine ⟨by simp [h1, proj_lift], fun hact w hw => ?_⟩
+      have := h2 (active_step c s.b a hen hact) w hw
+      simp [this]
+    · have hk := hhead hcd
+      cases hq : s.routq with
+      | nil => rw [hq] at h1; simp [hs] at h1
+      | cons r rest =>
+        have e1 : syncOut s.b.outq (step c s.b a).outq (r :: rest) = rest := by
+          rw [hs]; simp [syncOut]
+        rw [e1]
+        cases r with
+        | key w => simp [hq, isKeyHead] at hk
+        | val o =>
+          rw [hq, hs] at h1; simp [ROut.proj] at h1
+          refine ⟨h1.2, fun hact w hw => ?_⟩
+          have := h2 (active_step c s.b a hen hact) w hw
+          rw [hq] at this; simpa using this
+        | pill =>
+          rw [hq, hs] at h1; simp [ROut.proj] at h1
+          refine ⟨h1.2, fun hact w hw => ?_⟩
+          have := h2 (active_step c s.b a hen hact) w hw
+          rw [hq] at this; simpa using this
+  | wKey w =>
+    simp only [stepR, RInv]
+    refine ⟨by simp [h1, ROut.proj], fun hact w' hw' => ?_⟩
+    simp at hw'
+    rcases hw' with rfl | hw'
+    · simp
+    · have := h2 hact w' hw'; simp [this]
+  | cKey =>
+    simp only [enabledR, Bool.and_eq_true] at he
+    cases hq : s.routq with
+    | nil => simp [hq, isKeyHead] at he
+    | cons r rest =>
+      cases r with
+      | val o => simp [hq, isKeyHead] at he
+      | pill => simp [hq, isKeyHead] at he
+      | key w =>
+        simp only [stepR, hq, RInv]
+        refine ⟨by rw [h1, hq]; rfl, fun hact w' hw' => ?_⟩
+        simp at hw'
+        have := h2 hact w' hw'.1
+        rw [hq] at this
+        simp at this
+        rcases this with rfl | h
+        · exact absurd rfl hw'.2
+        · exact h
+  | drainKey =>
+    simp only [enabledR, Bool.and_eq_true] at he
+    cases hq : s.routq with
+    | nil => simp [hq, isKeyHead] at he
+    | cons r rest =>
+      cases r with
+      | val o => simp [hq, isKeyHead] at he
+      | pill => simp [hq, isKeyHead] at he
+      | key w =>
+        simp only [stepR, hq, RInv]
+        refine ⟨by rw [h1, hq]; rfl, fun hact => ?_⟩
+        have hm : s.b.main = .fin := by simpa using he.1
+        simp [State.active, hm] at hact
+
+theorem rinv_reachable (c : Cfg) (rw : Bool) (s : RState) (hr : ReachableR c rw s) : RInv s := by
+  induction hr with
+  | init => exact rinv_init c
+  | step _ he ih => exact rinv_step c rw _ _ ih he
+
+theorem deadlock_free_readwait' (c : Cfg) (hn : 0 < c.n) (rw : Bool) (s : RState) (hr : ReachableR c rw s) (hnd : s.b.main ≠ .done) :
+    ∃ a, a ≠ ActionR.base .cAbandon ∧ enabledR c s a = true := by
+  have hb := readwait_refines' c rw s hr
+  obtain ⟨h1, h2⟩ := rinv_reachable c rw s hr
+  have hI := inv_reachable' c hn s.b hb
+  cases hm : s.b.main with
+  | done => exact absurd hm hnd
+  | fin => exact ⟨.base .mDone, by simp, by simp [enabledR, enabled, hm]⟩
+  | waitEvent =>
+    cases hev : s.b.event with
+    | true => exact ⟨.base .mEvent, by simp, by simp [enabledR, enabled, hm, hev]⟩
+    | false =>
+      have := hI.ev hm hev
+      exact ⟨.base (.wBegin 0), by simp, by simp [enabledR, enabled, this]⟩
+  | consuming =>
+    cases hk : isKeyHead s.routq with
+    | true => exact ⟨.cKey, by simp, by simp [enabledR, hm, hk]⟩
+    | false =>
+      obtain ⟨a, hne, hen⟩ := deadlock_free' c hn s.b hb hnd
+      have hact : s.b.active = true := by simp [State.active, hm]
+      cases a with
+      | cAbandon => exact absurd rfl hne
+      | wCallback w =>
+        by_cases hp : s.keyPending.contains w = true
+        · exact ⟨.wKey w, by simp, by simpa [enabledR] using hp⟩
+        · by_cases hw : s.keyWait.contains w = true
+          · have hmem : ROut.key w ∈ s.routq := h2 hact w (by simpa using hw)
+            cases hq : s.routq with
+            | nil => rw [hq] at hmem; simp at hmem
+            | cons r rest =>
+              have hne' : s.b.outq ≠ [] := by
+                rw [h1, hq]
+                cases r with
+                | key w' => simp [hq, isKeyHead] at hk
+                | val o => simp [ROut.proj]
+                | pill => simp [ROut.proj]
+              refine ⟨.base .cGet, by simp, ?_⟩
+              simp only [enabledR, enabled, hm, hk]
+              cases ho : s.b.outq with
+              | nil => exact absurd ho hne'
+              | cons _ _ => simp
+          · refine ⟨.base (.wCallback w), by simp, ?_⟩
+            simp only [enabledR, hen]
+            simp at hp hw
+            simp [hp, hw]
+      | cGet => exact ⟨.base .cGet, by simp, by simp [enabledR, hen, hk]⟩
+      | drainOut => simp [enabled, hm] at hen
+      | loadTake => exact ⟨.base .loadTake, by simp, by simpa [enabledR] using hen⟩
+      | loadPut => exact ⟨.base .loadPut, by simp, by simpa [enabledR] using hen⟩
+      | loadFinish => exact ⟨.base .loadFinish, by simp, by simpa [enabledR] using hen⟩
+      | wBegin w => exact ⟨.base (.wBegin w), by simp, by simpa [enabledR] using hen⟩
+      | wGet w => exact ⟨.base (.wGet w), by simp, by simpa [enabledR] using hen⟩
+      | wPut w => exact ⟨.base (.wPut w), by simp, by simpa [enabledR] using hen⟩
+      | wRaise w => exact ⟨.base (.wRaise w), by simp, by simpa [enabledR] using hen⟩
+      | wRetire w => exact ⟨.base (.wRetire w), by simp, by simpa [enabledR] using hen⟩
+      | mEvent => exact ⟨.base .mEvent, by simp, by simpa [enabledR] using hen⟩
+      | drainIn => exact ⟨.base .drainIn, by simp, by simpa [enabledR] using hen⟩
+      | mDone => exact ⟨.base .mDone, by simp, by simpa [enabledR] using hen⟩
+
+/-- a schedule with `read_wait` that cannot be extended (except by the caller giving up) has finished the call -/
+theorem reaches_done_readwait' (c : Cfg) (hn : 0 < c.n) (rw : Bool) (s : RState) (hr : ReachableR c rw s)
+    (hstuck : ∀ a, a ≠ ActionR.base .cAbandon → enabledR c s a = false) : s.b.main = .done := by
+  by_cases hnd : s.b.main = .done
+  · exact hnd
+  · obtain ⟨a, hne, hen⟩ := deadlock_free_readwait' c hn rw s hr hnd
+    rw [hstuck a hne] at hen; simp at hen
+
 end Coba.C08
